@@ -1,5 +1,6 @@
 import Avfs.FS.Step
 import Avfs.FS.WF
+import Avfs.FS.Enum
 import Avfs.FS.Init
 /- line protocol for the MemFS model: `fs <view> <call> <args…>`, `fs new`, `fs <view> dump` -/
 namespace Avfs.FS
@@ -169,6 +170,31 @@ def wfOfDump (toks : List String) : String :=
     let s : Store := { nodes := cells, next := cells.length, lastId := lastId }
     s!"ok {wfCheck s 0}"
 
+def parseActs (a : String) : List WAct :=
+  if a == "-" then [] else
+  (a.splitOn ",").map fun x => if x == "d" then .skipDir else if x == "a" then .skipAll else if x == "e" then .fail else .cont
+
+def showWErr : WErr → String
+  | .none => "none" | .skipDir => "skipdir" | .skipAll => "skipall" | .fail => "fail" | .other e => errName e
+
+def enumExec (st : FSState) (vid : Nat) (v : View) (args : List String) : Option String :=
+  match args with
+  | ["glob", pat] =>
+    (pb pat).map fun p =>
+      match glob st.store v vid (p.length + 2) p with
+      | .ok l => s!"ok n {",".intercalate (l.map Bytes.toHex)}"
+      | .badPattern => "err badpattern"
+      | .panic => "panic"
+  | ["walk", root, acts] =>
+    (pb root).map fun r =>
+      let (ws, e) := walkDirTop st.store v vid r (parseActs acts)
+      let vis := ws.visited.map fun (p, k, er) => s!"{Bytes.toHex p}:{k}:{match er with | some x => errName x | none => "-"}"
+      s!"ok w {";".intercalate vis} {showWErr e}"
+  | ["exists", p] => (pb p).map fun p => let (b, e) := pathExists st.store v p; s!"ok x {b} {match e with | some x => errName x | none => "-"}"
+  | ["direxists", p] => (pb p).map fun p => let (b, e) := dirExists st.store v p; s!"ok x {b} {match e with | some x => errName x | none => "-"}"
+  | ["isdir", p] => (pb p).map fun p => let (b, e) := isDir st.store v p; s!"ok x {b} {match e with | some x => errName x | none => "-"}"
+  | _ => none
+
 def showView (v : View) : String := s!"view {v.root} {Bytes.toHex v.cwd} {v.uid} {v.gid} {v.admin} {oct v.umask}"
 
 def exec (st : FSState) (args : List String) : FSState × String :=
@@ -190,6 +216,10 @@ def exec (st : FSState) (args : List String) : FSState × String :=
   | vid :: rest =>
     match vid.toNat?, parseCall rest with
     | some vid, some c => let (st1, o) := step st vid c; (st1, showOut o)
+    | some vid, none =>
+      match st.view vid with
+      | some v => (st, (enumExec st vid v rest).getD "bad-op")
+      | none => (st, "bad-op")
     | _, _ => (st, "bad-op")
   | _ => (st, "bad-op")
 
